@@ -86,3 +86,22 @@ Theorem scope_list fx c sc :
   forall k, In k (scoped_keys (c_core c) sc) <->
             exists b, In (k, b) (k_blobs (c_core c)) /\ out_of_scope b sc = false.
 Proof. split; [reflexivity|]. intros k. apply scope_list_in. Qed.
+
+(* ---- Clean removes blobs in the documented order *)
+Theorem clean_order cap ops pct respect order : cap < two64 ->
+  ((pct <? 0) || (100 <=? pct))%Z = false ->
+  let c := reach_c cap ops in
+  snd (cstep Disk true c (Clean pct respect order)) <> OBadOracle ->
+  let c' := fst (cstep Disk true c (Clean pct respect order)) in
+  forall k b, assoc k (k_blobs (c_core c)) = Some b -> assoc k (k_blobs (c_core c')) = None ->
+    b_complete b && negb (b_banned b) = true \/
+    ((forall k2, evictableb (c_core c') k2 = false) /\
+     (b_banned b = false \/
+      (respect = false /\ forall k2 b2, assoc k2 (k_blobs (c_core c')) = Some b2 -> b_banned b2 = true))).
+Proof.
+  intros H Hpct c Hout c' k b Hb Hgone. pose proof (reach_inv cap ops H) as HI. fold c in HI.
+  destruct (step_refines Disk c (reach_s cap ops) (Clean pct respect order) HI) as [Ho HI1]. fold c' in HI1.
+  pose proof (inv_core _ _ HI1) as E1. pose proof (inv_core _ _ HI) as E0.
+  rewrite E0 in Hb. rewrite E1 in Hgone |- *. rewrite Ho in Hout.
+  exact (clean_order_spec c (reach_s cap ops) pct respect order HI Hpct Hout k b Hb Hgone).
+Qed.
